@@ -335,3 +335,97 @@ func H_two_constructs() {
 	}
 	symx.Reach("end")
 }
+
+// a route CLOSURE that captures top-level values by value (use ($cfg, $n)) and writes to its
+// copies: each request's copy is its own (the closure object and the captured originals are
+// shared by all requests)
+const captureSrc = `
+$cfg = ["who" => "none", "hits" => 0];
+$list = [1];
+$n = 0;
+$h = function($r, $w) use ($cfg, $list, $n) {
+  $q = $r->query(); $a = $q->x;
+  $cfg["who"] = $a;
+  $cfg["hits"] = $cfg["hits"] + 1;
+  $list[] = 2;
+  $n = $n + 1;
+  $w->write($cfg["who"] . ":" . $cfg["hits"] . ":" . count($list) . ":" . $n);
+};
+`
+
+type countFn struct{}
+
+func (f *countFn) Call(ctx data.Context) (data.GetValue, data.Control) {
+	v, _ := ctx.GetIndexValue(0)
+	if a, ok := v.(*data.ArrayValue); ok {
+		return data.NewIntValue(len(a.List)), nil
+	}
+	if o, ok := v.(*data.ObjectValue); ok {
+		n := 0
+		o.RangeProperties(func(string, data.Value) bool { n++; return true })
+		return data.NewIntValue(n), nil
+	}
+	return data.NewIntValue(0), nil
+}
+func (f *countFn) GetName() string { return "count" }
+func (f *countFn) GetParams() []data.GetValue {
+	return []data.GetValue{node.NewParameter(nil, "v", 0, nil, nil)}
+}
+func (f *countFn) GetVariables() []data.Variable {
+	return []data.Variable{node.NewVariable(nil, "v", 0, nil)}
+}
+
+// H_two_capture: a completed request, then two requests in flight, through the capturing closure.
+func H_two_capture() {
+	p := parser.NewParser()
+	vm := runtime.NewVM(p)
+	vm.SetThrowControl(func(acl data.Control) {})
+	vm.AddFunc(&countFn{})
+	prog, ctl := p.ParseString(captureSrc, "h.zy")
+	symx.Assert(ctl == nil, "script parses")
+	if ctl != nil {
+		return
+	}
+	vars := p.GetVariables()
+	ctx := vm.CreateContext(vars)
+	prog.GetValue(ctx)
+	var fn data.FuncStmt
+	for _, v := range vars {
+		if v.GetName() == "h" {
+			val, _ := v.GetValue(ctx)
+			if fv, ok := val.(*data.FuncValue); ok {
+				fn = fv.Value
+			}
+		}
+	}
+	symx.Assert(fn != nil, "the closure is defined")
+	if fn == nil {
+		return
+	}
+	h := ohttp.Handler{Value: fn, Ctx: ctx}
+	for _, c := range node.VerifSuperglobalCells() {
+		symx.Shared(c, "superglobal cache")
+	}
+	symx.KnownPanic("C11-shared-superglobal-cache", "on superglobal cache@", true)
+	symx.KnownPanic("C11-shared-superglobal-cache", "heap cell@node.ResetSuperglobals", true)
+	warm := &recorder{hdr: http.Header{}}
+	h.ServeHTTP(warm, request("9"))
+	symx.Assert(string(warm.body) == "9:1:2:1", "first request alone")
+	qs := [2]string{"1", "2"}
+	recs := [2]*recorder{{hdr: http.Header{}}, {hdr: http.Header{}}}
+	var wg sync.WaitGroup
+	wg.Add(2)
+	for t := 0; t < 2; t++ {
+		t := t
+		go func() {
+			h.ServeHTTP(recs[t], request(qs[t]))
+			wg.Done()
+		}()
+	}
+	wg.Wait()
+	for t := 0; t < 2; t++ {
+		symx.Observe("body", t, string(recs[t].body))
+		symx.Assert(string(recs[t].body) == qs[t]+":1:2:1", "response body equals what the closure yields for this request alone (captured values are per call)")
+	}
+	symx.Reach("end")
+}
